@@ -772,8 +772,8 @@ def rule_loop(run, prog):
                 if nm in res.assigned or (nm + ".*") in res.assigned:
                     touched.add(nm)
             for a in attrs:
-                if a in res.assigned:
-                    touched.add(a)
+                if a in res.assigned or (a.split(".")[0] + ".*") in res.assigned:
+                    touched.add(a)          # stored directly, or its owner is mutated through a method call
             # calls in the condition (other than look-ups answering None) whose arguments change
             for call in [x for x in ast.walk(loop.test) if isinstance(x, ast.Call)]:
                 if st.is_lookup(call):
